@@ -52,7 +52,20 @@ C10_NestedAccessorDeref(lo, hi) ==
   /\ LET first == CHOOSE i \in uafs : \A j \in uafs : i <= j IN
      H[first].ctx = "impl::vyukov_hash_map_traits::accessor::accessor<impl::vyukov_hash_map_traits::acquire<vyukov_hash_map::try_get_value"
 
+\* C06: kirsch_bounded_kfifo_queue::try_push - queue_full() compares the whole head word (index and ABA tag); a concurrent
+\* committed() that only bumps the tag makes it report "not full", and try_push then advances the tail onto the head's
+\* segment although the old tail segment still holds elements: these are overtaken by more than k-1 later pushes.
+\* Signature: the head value loaded in queue_full differs from the head_old loaded in try_push only in its tag (upper bits).
+C06_HeadTagBump(lo, hi) ==
+  \E i \in lo .. hi :
+     /\ H[i].e = "ld" /\ H[i].fn = "kirsch_bounded_kfifo_queue::queue_full"
+     /\ \E j \in lo .. i - 1 :
+          /\ H[j].e = "ld" /\ H[j].t = H[i].t /\ H[j].a = H[i].a /\ H[j].fn = "kirsch_bounded_kfifo_queue::try_push"
+          /\ H[j].v # H[i].v /\ H[j].v % 65536 = H[i].v % 65536
+          /\ \A m \in j + 1 .. i - 1 : ~(H[m].e = "ld" /\ H[m].t = H[i].t /\ H[m].a = H[i].a /\ H[m].fn = "kirsch_bounded_kfifo_queue::try_push")
+
 Eval(lo, hi) == CASE IOEnv.KF = "C12_StaleCapacity" -> C12_StaleCapacity(lo, hi)
+                  [] IOEnv.KF = "C06_HeadTagBump" -> C06_HeadTagBump(lo, hi)
                   [] IOEnv.KF = "C10_NestedAccessorDeref" -> C10_NestedAccessorDeref(lo, hi)
                   [] IOEnv.KF = "C10_StaleBlockRead" -> C10_StaleBlockRead(lo, hi)
                   [] OTHER -> FALSE
